@@ -210,6 +210,12 @@ partial def event (sm : Sim) (ev : String) (nested : Bool := false) : Sim :=
     | "handler" :: rest =>
       let k := match rest with | x :: _ => x.toNat?.getD 0 | [] => 0
       (sm.op (.handler k)).flushOuts.settle
+    | ["stopin", _, dt] =>
+      -- a forced stop arriving while the loop sleeps: the flag is up before the pass goes on, dt seconds later
+      if !sm.w.st.started || sm.w.st.stopping then { sm with lines := sm.lines ++ ["RAISE stop RuntimeError"] }
+      else
+        let sm := (sm.op (.adv (dt.toNat?.getD 0))).op (.stopBegin true)
+        ((sm.op .stopFinal).op (.note .stopped)).flushOuts
     | "stop" :: force :: timeout :: rest =>
       let wev := rest.map fun x => x.replace "_" " "
       if !sm.w.st.started then { sm with lines := sm.lines ++ ["RAISE stop RuntimeError"] }
